@@ -8,12 +8,13 @@
     (write_tab_delimited / write_human_readable / Tree), src/mode.rs content_size (u64 `+=` fold).
 
     External code is a Section variable: [cal] chrono's rendering of a representable timestamp (None when
-    not representable), [human] Bytes' Display (C16), [host_disp] url::Host::parse followed by Display
-    (brackets around IPv6), [url_norm] Url::parse followed by Display. No hypotheses about them are needed. *)
+    not representable), [human] Bytes' Display (C16), [host_disp] the node deserialiser's reading of the host text
+    (src/host_port.rs: url::Host::parse of the text - of `[text]` when it contains a colon - followed by Display,
+    brackets around IPv6), [url_norm] Url::parse followed by Display. No hypotheses about them are needed. *)
 From Coq Require Import Decimal DecimalN DecimalFacts.
 From Coq Require Import Ascii String.
 From Coq Require Import NArith ZArith Bool List.
-From Imdl Require Import Model.Bencode.
+From Imdl Require Import Model.Bencode Model.BencodeWide.
 Import ListNotations.
 Local Open Scope N_scope.
 
@@ -100,8 +101,10 @@ Definition model_schema : list (string * bytes * bool) :=
     ("FileInfo", k_length, false); ("FileInfo", k_path, false); ("FileInfo", k_md5sum, true) ]%string.
 
 (* ---------- typed records ---------- *)
-Record file := { f_length : N; f_path : list bytes }.
-Inductive mode := Single (length : N) | Multiple (files : list file).
+(** [f_md5] / [md5]: the md5sum text (32 hex digits) when the entry carries one; `torrent show` does not print it,
+    the verifier (Model/Verify.v, through [Verify.project]) compares it *)
+Record file := { f_length : N; f_path : list bytes; f_md5 : option bytes }.
+Inductive mode := Single (length : N) (md5 : option bytes) | Multiple (files : list file).
 
 Record metainfo := {
   m_announce : option bytes;
@@ -181,20 +184,33 @@ Definition as_pieces (v : value) : option bytes :=
   | _ => None
   end.
 
+(** FileInfo is read out of content buffered by serde's flatten (i64 first, then u64). A derived struct read from
+    buffered content may be a map (unknown keys ignored, keys need not be UTF-8) or - serde's
+    [ContentRefDeserializer::deserialize_struct] hands a [Content::Seq] to [visit_seq] - a sequence of the fields in
+    declaration order: length, path, then md5sum or nothing (a fourth element is "invalid length").
+    The real binary accepts `files: [[5, ["a"]]]` (checked by X4; Model/Crash.v always had this reading). *)
 Definition as_file (v : value) : option file :=
   match v with
   | Dict d =>
-      do n <- req (as_uint 63) k_length d;      (* buffered by serde's flatten: i64 first, then u64 *)
+      do n <- req (as_uint 63) k_length d;
       do p <- req as_path k_path d;
-      do _ <- opt as_md5 k_md5sum d;
-      Some {| f_length := n; f_path := p |}
+      do m <- opt as_md5 k_md5sum d;
+      Some {| f_length := n; f_path := p; f_md5 := m |}
+  | Lst (lv :: pv :: rest) =>
+      do n <- as_uint 63 lv;
+      do p <- as_path pv;
+      match rest with
+      | [] => Some {| f_length := n; f_path := p; f_md5 := None |}
+      | [mv] => do m <- as_md5 mv; Some {| f_length := n; f_path := p; f_md5 := Some m |}
+      | _ => None
+      end
   | _ => None
   end.
 
 Definition try_single (d : list (bytes * value)) : option mode :=
   do n <- req (as_uint 63) k_length d;
-  do _ <- opt as_md5 k_md5sum d;
-  Some (Single n).
+  do m <- opt as_md5 k_md5sum d;
+  Some (Single n m).
 Definition try_multiple (d : list (bytes * value)) : option mode :=
   do fs <- req (as_list as_file) k_files d; Some (Multiple fs).
 (** #[serde(untagged)]: variants in declaration order, first that deserialises wins *)
@@ -212,14 +228,14 @@ Fixpoint checked_sum (acc : N) (l : list N) : option N :=
 (** Mode::content_size_fits (repair 0006) *)
 Definition content_size_fits (m : mode) : bool :=
   match m with
-  | Single _ => true
+  | Single _ _ => true
   | Multiple fs => match checked_sum 0 (map f_length fs) with Some _ => true | None => false end
   end.
 (** Mode::content_size: `sum += item` on u64 — overflow panics in the debug profile ([None]) and wraps in release *)
 Definition content_size_debug (m : mode) : option N :=
-  match m with Single n => Some n | Multiple fs => checked_sum 0 (map f_length fs) end.
+  match m with Single n _ => Some n | Multiple fs => checked_sum 0 (map f_length fs) end.
 Definition content_size_release (m : mode) : N :=
-  match m with Single n => n | Multiple fs => fold_left (fun acc x => (acc + x) mod u64_mod) (map f_length fs) 0 end.
+  match m with Single n _ => n | Multiple fs => fold_left (fun acc x => (acc + x) mod u64_mod) (map f_length fs) 0 end.
 Fixpoint list_sum (l : list N) : N := match l with [] => 0 | x :: r => x + list_sum r end.
 
 Section Show.
@@ -280,6 +296,34 @@ Section Show.
     | _ => None
     end.
 
+  (** values serde skips (unknown keys: IgnoredAny) or buffers (every key of the flattened info dictionary that is
+      not one of Info's own fields - `length`, `files`, `md5sum` and the unknown ones) go through bendy's
+      [deserialize_any], which parses an integer token as i64 *)
+  Definition top_known : list bytes :=
+    [k_announce; k_announce_list; k_comment; k_created_by; k_creation_date; k_encoding; k_info; k_nodes].
+  Definition info_known : list bytes := [k_private; k_piece_length; k_name; k_source; k_pieces; k_update_url].
+  Definition others_i64 (ks : list bytes) (d : list (bytes * value)) : bool :=
+    forallb (fun kv => existsb (bytes_eqb (fst kv)) ks || all_i64 (snd kv)) d.
+  Definition skipped_i64 (v : value) : bool :=
+    match v with
+    | Dict d => others_i64 top_known d &&
+                match lookup k_info d with Some (Dict i) => others_i64 info_known i | _ => true end
+    | _ => true
+    end.
+
+  (** [Metainfo::from_input] / [Metainfo::deserialize] on the bytes, the ONE typed loader of `torrent show`,
+      `link` and `verify`: bendy's serde reader (integers of any size in the tokenizer, nesting at most 2048,
+      trailing bytes ignored), the derived visitors ([typed_of_value]), i64 for what is skipped or buffered.
+      Commands that also compute the infohash ([show], `link`) decode the whole value as a generic [Value] first,
+      which demands i64 everywhere - that is why [show] below may use the strict [decode]. *)
+  Definition from_value (v : value) : option metainfo :=
+    if (depth v <=? max_depth) && skipped_i64 v then typed_of_value v else None.
+  Definition from_input (input : bytes) : option metainfo :=
+    match wdecode (fuel_for input) input with
+    | Some (v, _) => from_value v
+    | None => None
+    end.
+
   (* ---------- JSON report (TorrentSummaryJson, fields in declaration order) ---------- *)
   Inductive jv := JvNull | JvStr (s : bytes) | JvNum (n : N) | JvBool (b : bool) | JvArr (l : list jv).
 
@@ -294,11 +338,11 @@ Section Show.
     end.
   Definition joined_under (name : bytes) (p : list bytes) : bytes := fold_left path_push p name.
 
-  Definition is_single (m : metainfo) : bool := match m_mode m with Single _ => true | Multiple _ => false end.
+  Definition is_single (m : metainfo) : bool := match m_mode m with Single _ _ => true | Multiple _ => false end.
   Definition file_paths (m : metainfo) : list (list bytes) :=
-    match m_mode m with Single _ => [] | Multiple fs => map f_path fs end.
+    match m_mode m with Single _ _ => [] | Multiple fs => map f_path fs end.
   Definition file_count (m : metainfo) : N :=
-    match m_mode m with Single _ => 1 | Multiple fs => N.of_nat (List.length fs) end.
+    match m_mode m with Single _ _ => 1 | Multiple fs => N.of_nat (List.length fs) end.
   Definition piece_count (m : metainfo) : N := N.of_nat (List.length (m_pieces m)) / 20.
   Definition private_flag (m : metainfo) : bool := match m_private m with Some b => b | None => false end.
   Definition hex_text (ih : bytes) : bytes := ih.   (* the info hash arrives as its 40 hex digits; C04 owns its value *)
@@ -497,10 +541,11 @@ Section Show.
 
   (** Env::read gives the same bytes from a path or from stdin; Infohash::from_input needs the strict
       decoding to succeed (trailing bytes ignored) and a dictionary with a dictionary `info`, which the
-      typed loader requires anyway *)
+      typed loader requires anyway; both readers refuse nesting deeper than 2048 (X4: the bound was missing here,
+      the real `show` exits 1 on an unknown key nested 2049 deep) *)
   Definition show (src : target) (input : bytes) (ih : bytes) : outcome :=
     match decode (2 * List.length input + 2) input with
-    | Some (v, _) => show_value v (N.of_nat (List.length input)) ih
+    | Some (v, _) => if depth v <=? max_depth then show_value v (N.of_nat (List.length input)) ih else ShowRejected
     | None => ShowRejected
     end.
 End Show.
